@@ -11,16 +11,16 @@ def add(pid, technique, text, note, ref=None):
     CHECKS[pid] = (technique, text, note, ref or f"DESIGN.md section 5, {pid}")
 
 add("C01", "Hypothesis-generated games vs independent mpmath reference model (differential oracle with C17-derived intervals)",
-    "Exploration: thousands of generated (model, configuration, game, outcome encoding, per-call option) cases per run, each compared per player with a 50-digit evaluation of the published update; shrunk failures become replay files. Right level because the property quantifies over a continuous input space with an exact executable oracle.",
+    "Exploration: thousands of generated (model, configuration, game, outcome encoding, per-call option) cases per run, a dense uniform sweep of the standardised two-team gap (incl. the neighbourhoods where erfc / exp / the epsilon guards change regime) and lobbies beyond 8 teams, each compared per player with a 50-digit evaluation of the published update; shrunk failures become replay files. Right level because the property quantifies over a continuous input space with an exact executable oracle.",
     "Trusts vf/refmodel.py as a transcription of Weng & Lin (2011) and mpmath's ncdf/npdf; TM margins outside [1e-8,1e-2] excluded (counted); TM-part doubled c_iq is the open known finding tmp-ciq-doubled.")
 add("C03", "Hypothesis metamorphic test: several encodings of one weak order must give bit-identical results; symmetry anchor for mixed-type ties",
     "Exploration over generated games x weak orders x encodings (int/float/mixed/bool/huge/relatively-close floats/small ints/negative/scores/omitted) with an exact (bitwise) metamorphic oracle; history-dependent failures are saved with the cases that preceded them.",
     "Rank values restricted to finite int/float/bool; 'identical' read as bit-identical.")
 add("C14", "Hypothesis stateful machine (history independence), generated line-level thread schedules under a sys.settrace scheduler, differential across fresh child interpreters with different PYTHONHASHSEED and call order",
-    "Exploration of call histories, identities, harness-owned interleavings (<= 6 preemptions, <= 4 threads, source-line granularity), hash seeds and call orders in fresh processes; every result compared bit for bit with the same call on a fresh model / in another process.",
-    "Preemption granularity is the source line; bounded preemptions/threads; free-running thread stress is only additional.")
+    "Exploration of call histories (incl. earlier out-of-range calls), identities (names, ids, aliasing, caller-modified return values), harness-owned interleavings (<= 6 preemptions, <= 4 threads, source-line and bytecode granularity, preemptions right after writes to the shared model or to module-level containers, also at cold start in fresh interpreters), hash seeds and call orders in fresh processes; every result compared bit for bit with the same call on a fresh model / in another process.",
+    "Bounded preemptions (<= 6 drawn + <= 4 write-triggered) and threads (<= 4); a quarter of the schedules at bytecode granularity; free-running thread stress is only additional.")
 add("C15", "Hypothesis metamorphic/differential test: per-call option vs model constructed with that option, bit-identical",
-    "Exploration over generated games and option values (0, 0.0, 1e-300, ints, default, large; True/False) with fresh model and ratings on each side.",
+    "Exploration over generated games and option values (0, 0.0, 1e-300, ints, default, large; True/False) with fresh model and ratings on each side; options also passed positionally (rate and constructor) and compared with the keyword form.",
     "'Returns what ... returns' read as bit-identical (mu, sigma).")
 add("C17", "Hypothesis-generated (x, t) sweep + exhaustive +-64-ulp walks at every branch threshold vs exact 50-digit mpmath values",
     "Exploration: dense generated sweep of [-40,40] x [1e-8,1e-2] with exactly the statement's bounds as oracle; ulp-neighbourhoods of each threshold enumerated exhaustively inside a case.",
@@ -57,7 +57,7 @@ add("C12", "Hypothesis-generated teams vs independent 50-digit mpmath evaluation
     "Exploration: every number of the three predict operations compared to 1e-9 absolute with the closed forms written from the statement.",
     "predict_rank uses n*beta^2 also for n=2; mpmath erfinv as inverse CDF.")
 add("C13", "Exhaustive fault enumeration (all sites x fault kinds of a malformed-argument grammar) inside Hypothesis-generated valid calls; atheris target injecting grammar-built objects",
-    "Fault enumeration: for every generated valid call all faults of the grammar are injected one at a time for rate and the three predicts; oracle = exact exception type and unchanged snapshots of all reachable ratings and of the model.",
+    "Fault enumeration: for every generated valid call all faults of the grammar are injected one at a time for rate and the three predicts (also by editing an already accepted lobby in place and passing it again); oracle = exact exception type and unchanged snapshots of all reachable ratings and of the model; a libFuzzer campaign injects grammar-built objects at byte-chosen sites.",
     "Falsy ranks/scores are 'not given'; Decimal/Fraction/NaN/inf not generated.")
 add("C16", "Hypothesis metamorphic tests: rescaled and shifted copies of one game compared within the numerical budget; predictions within 1e-12",
     "Exploration over generated games x factors (2^k exact, 10^u) x shifts.",
